@@ -28,6 +28,9 @@ pub enum HStep {
     Chunk { f: u8, len: u8 },
     /// a data segment on flow f with a wrong acknowledgement number
     BadAck { f: u8, delta: u32 },
+    /// a data segment on flow f whose acknowledgement number is flow g's cookie + 1 (g != f: wrong
+    /// for f), carrying bytes that would complete a request pending on g
+    CrossAck { f: u8, g: u8, kind: u8 },
     Syn { f: u8 },
     /// non-data TCP segment (FIN|ACK, ACK, RST, FIN, SYN|ACK ...) on flow f whose sequence /
     /// acknowledgement numbers are related to flow g's cookie (ack = cookie(g)+1, seq = cookie(g))
@@ -73,6 +76,7 @@ pub fn case_strategy() -> impl Strategy<Value = Case> {
             prop_oneof![
                 8 => (0u8..3, prop_oneof![2 => 1u8..12, 2 => 12u8..80, 1 => Just(255u8)]).prop_map(|(f, len)| HStep::Chunk { f, len }),
                 1 => (0u8..3, 1u32..100000).prop_map(|(f, delta)| HStep::BadAck { f, delta }),
+                1 => (0u8..3, 1u8..3, 0u8..3).prop_map(|(f, d, kind)| HStep::CrossAck { f, g: (f + d) % 3, kind }),
                 1 => (0u8..3).prop_map(|f| HStep::Syn { f }),
                 2 => (0u8..3, 0u8..3, prop::sample::select(vec![F_FIN | F_ACK, F_ACK, F_RST, F_RST | F_ACK, F_FIN, F_SYN | F_ACK, F_FIN | F_ACK | F_URG]), any::<bool>()).prop_map(|(f, g, flags, seq_is_cookie)| HStep::NonData { f, g, flags, seq_is_cookie }),
                 2 => (0u8..4, mac_unicast(), any::<bool>()).prop_map(|(kind, mac, same_ip)| HStep::Alias { kind, mac, same_ip }),
@@ -112,9 +116,15 @@ fn flow_key(f: &[u8]) -> Option<Vec<u8>> {
 
 fn play(c: &Case, st: &mut Stats) -> Result<Vec<Played>, Failure> {
     Sut::reset();
-    let sut = Sut::new(&c.scn.cfg);
+    let cfg = cfg_of(c);
+    let sut = Sut::new(&cfg);
     let net = &c.scn.net;
-    let flows: Vec<Flow> = (0..3).map(|i| Flow { net: net.clone(), sport: c.sport.wrapping_add(i as u16), dport: c.dport }).collect();
+    let mut flows: Vec<Flow> = (0..3).map(|i| Flow { net: net.clone(), sport: c.sport.wrapping_add(i as u16), dport: c.dport }).collect();
+    // flow 2: same peer, same ports as flow 0, another local (destination) address
+    let mut n2 = net.clone();
+    n2.sip = other_ip(&net.sip, 1);
+    n2.dmac = cfg.mac;
+    flows[2] = Flow { net: n2, sport: c.sport, dport: c.dport };
     let mut cookies = Vec::new();
     for f in &flows {
         cookies.push(learn_cookie(&sut, f, 100).map_err(|e| Failure::new(format!("in-scope SYN not answered: {}", e)))?);
@@ -141,6 +151,11 @@ fn play(c: &Case, st: &mut Stats) -> Result<Vec<Played>, Failure> {
                 let fi = *f as usize % 3;
                 flows[fi].data(101, cookies[fi].wrapping_add(1).wrapping_add(*delta), b"GET / HTTP/1.1\r\n\r\n")
             }
+            HStep::CrossAck { f, g, kind } => {
+                let (fi, gi) = (*f as usize % 3, *g as usize % 3);
+                let p: &[u8] = match kind % 3 { 0 => b"\r\n\r\n", 1 => b"GET / HTTP/1.1\r\n\r\n", _ => b"x" };
+                flows[fi].data(101u32.wrapping_add(off[fi] as u32), cookies[gi].wrapping_add(1), p)
+            }
             HStep::Syn { f } => flows[*f as usize % 3].syn(100),
             HStep::NonData { f, g, flags, seq_is_cookie } => {
                 let (fi, gi) = (*f as usize % 3, *g as usize % 3);
@@ -162,7 +177,7 @@ fn play(c: &Case, st: &mut Stats) -> Result<Vec<Played>, Failure> {
                     (0, _, IpAddr::V6(si)) => ns_frame(&n, &si.octets(), &[1, 1, n.cmac[0], n.cmac[1], n.cmac[2], n.cmac[3], n.cmac[4], n.cmac[5]]),
                     (1, _, _) => echo_frame(&n, 7, 7, b"alias"),
                     (2, _, _) => tcp_frame(&n, &TcpH::new(c.sport, c.dport, 5, 0, F_SYN), &[]),
-                    _ => udp_frame(&n, c.sport, c.dport, &StunReq { mtype: 1, magic: true, id: [3; 16], attrs: vec![] }.bytes()),
+                    _ => udp_frame(&n, c.sport, c.dport, &StunReq { mtype: 1, magic: true, id: [3; 16], attrs: vec![], trailer: Hex(vec![]) }.bytes()),
                 }
             }
             HStep::IcmpErr { typ4, typ6, code, f, l4_len } => {
@@ -181,7 +196,7 @@ fn play(c: &Case, st: &mut Stats) -> Result<Vec<Played>, Failure> {
             }
             HStep::UdpSame { kind } => {
                 let p = match kind % 3 {
-                    0 => StunReq { mtype: 1, magic: true, id: [5; 16], attrs: vec![] }.bytes(),
+                    0 => StunReq { mtype: 1, magic: true, id: [5; 16], attrs: vec![], trailer: Hex(vec![]) }.bytes(),
                     1 => DnsQuery { id: 77, flags: 0x0100, questions: vec![DnsQuestion { labels: vec![Hex(b"example".to_vec()), Hex(b"com".to_vec())], qtype: 1, qclass: 1 }] }.bytes(),
                     _ => b"GET / HTTP/1.1\r\n\r\n".to_vec(),
                 };
@@ -199,6 +214,15 @@ fn play(c: &Case, st: &mut Stats) -> Result<Vec<Played>, Failure> {
     Ok(played)
 }
 
+/// the case's configuration with flow 2's destination address added to the self-IP list
+fn cfg_of(c: &Case) -> Cfg {
+    let mut cfg = c.scn.cfg.clone();
+    if let Some(l) = &mut cfg.self_ips {
+        l.push(other_ip(&c.scn.net.sip, 1));
+    }
+    cfg
+}
+
 fn norm(o: &Out) -> Out {
     match o {
         Out::Reply(r) => Out::Reply(normalise_frame(r)),
@@ -212,7 +236,7 @@ pub fn check(c: &Case, st: &mut Stats) -> Check {
     if played.is_empty() {
         return Ok(());
     }
-    let sut = Sut::new(&c.scn.cfg);
+    let sut = Sut::new(&cfg_of(c));
     // probes: every position (the isolated re-run costs only the own-flow prefix)
     let mut other_flow_data_seen = false;
     let mut accepted_by_flow: HashMap<Vec<u8>, Vec<usize>> = HashMap::new();
@@ -252,7 +276,7 @@ pub fn check(c: &Case, st: &mut Stats) -> Check {
         }
     }
     let _ = other_flow_data_seen;
-    let kinds: Vec<&str> = c.hist.iter().map(|h| match h { HStep::Chunk { .. } => "chunk", HStep::BadAck { .. } => "bad-ack", HStep::Syn { .. } => "syn", HStep::NonData { .. } => "non-data-tcp(ack related to another flow's cookie)", HStep::Alias { .. } => "alias(shared IP or MAC)", HStep::IcmpErr { .. } => "icmp-error(quoting a reply to the client)", HStep::UdpSame { .. } => "udp(same client, same ports)", HStep::Other(_) => "other" }).collect();
+    let kinds: Vec<&str> = c.hist.iter().map(|h| match h { HStep::Chunk { .. } => "chunk", HStep::BadAck { .. } => "bad-ack", HStep::CrossAck { .. } => "data-acking-another-flow's-cookie", HStep::Syn { .. } => "syn", HStep::NonData { .. } => "non-data-tcp(ack related to another flow's cookie)", HStep::Alias { .. } => "alias(shared IP or MAC)", HStep::IcmpErr { .. } => "icmp-error(quoting a reply to the client)", HStep::UdpSame { .. } => "udp(same client, same ports)", HStep::Other(_) => "other" }).collect();
     for k in &kinds {
         st.class(&format!("hist:{}", k));
     }
@@ -334,7 +358,7 @@ impl Prop for C08 {
         "C08"
     }
     fn rule(&self) -> &'static str {
-        "metamorphic over histories: 3 TCP flows (same addresses, adjacent source ports) each with its own byte stream (protocol requests, two requests back to back, garbage) delivered in generated chunks, interleaved in generated order with wrong-ack data segments, SYNs non-data TCP segments whose seq/ack are another flow's cookie, traffic sharing the flows' IP or MAC (ARP / NS / echo / SYN / UDP from the same IP with another MAC and vice versa), ICMP / ICMPv6 error messages quoting the responder's own SYN-ACK or UDP answer to the client (all error types and codes), answerable UDP datagrams from the flows' client with fixed ports, and unrelated noise (ARP, ICMP, ND, UDP application traffic, raw and lying-header frames, SYN floods on other ports). For EVERY position p of the history: the reply recorded at p must equal (after masking HTTP Date / SMB times) the reply to the same frame when the connection table is reset and only the accepted data segments of p's own 4-tuple that precede p are replayed. Directed: two distinct 4-tuples with equal cookie found by a birthday search through the responder's cookie function. Non-trivial = at p another flow has accepted data and p is answered or is a data segment; distinct by case hash."
+        "metamorphic over histories: 3 TCP flows (two with adjacent source ports, one differing from the first only in the destination address; data segments that acknowledge ANOTHER flow's cookie+1) each with its own byte stream (protocol requests, two requests back to back, garbage) delivered in generated chunks, interleaved in generated order with wrong-ack data segments, SYNs non-data TCP segments whose seq/ack are another flow's cookie, traffic sharing the flows' IP or MAC (ARP / NS / echo / SYN / UDP from the same IP with another MAC and vice versa), ICMP / ICMPv6 error messages quoting the responder's own SYN-ACK or UDP answer to the client (all error types and codes), answerable UDP datagrams from the flows' client with fixed ports, and unrelated noise (ARP, ICMP, ND, UDP application traffic, raw and lying-header frames, SYN floods on other ports). For EVERY position p of the history: the reply recorded at p must equal (after masking HTTP Date / SMB times) the reply to the same frame when the connection table is reset and only the accepted data segments of p's own 4-tuple that precede p are replayed. Directed: two distinct 4-tuples with equal cookie found by a birthday search through the responder's cookie function. Non-trivial = at p another flow has accepted data and p is answered or is a data segment; distinct by case hash."
     }
     fn run(&self, ctx: &mut RunCtx) {
         let n = ctx.share(ctx.tier.n(200_000, 3_000_000));
